@@ -18,12 +18,25 @@ Clause ids (`what`):
                                  lines; otherwise the library re-expresses the list on measure lines, which the statement
                                  allows as long as the positions are there and the objects' times are right)
   read_file_equals_read, read_lines_equals_read    the other two entry points give the same result (every 10th file)
+  read_lines_keepends_equals_read, read_through_instance_equals_read, read_file_path_object_equals_read, read_file_crlf_equals_read
+                                 further entry points on the same files: a readlines()-style list (every line keeps its line
+                                 end), a call through an instance, a pathlib.Path, the file saved with CRLF line ends
+  earlier_read_unchanged_by_later_read   a returned mapset still satisfies every clause after later reads (of the same text
+                                 through the other entry points / of another file): results do not share state
   result_is_well_formed          the returned lists can be inspected at all (integer columns, float offsets)
 Files of the rarer comment families report one clause named after the family, whatever base clause broke
 (one root cause, one id):
   comment_after_note_row         a `//` comment after a note row (`1000  // here`) does not change the denotation
   comment_containing_colon / comment_containing_semicolon / comment_containing_hash
                                  the text of a `//` comment may contain `:` `;` `#` without changing the denotation
+  reads_file_without_offset_tag  a file without #OFFSET is read with beat 0 at 0 ms (StepMania's default offset 0)
+  stops_tag_before_offset_or_bpms   the (empty) #STOPS tag may stand in front of #OFFSET or #BPMS: tags carry no order
+  blank_line_of_spaces_inside_measure   a blank line made of spaces / a tab inside the note data is a blank line
+
+Dimensions of the random files besides charts / rows / tempo changes (see gen_spec, enrich_header, enrich_style): 0..5 charts, charts
+without objects or with one kind only, 23 chart types (3-16 columns), tempo changes on a chart's last row and beyond the end,
+unusual numerals, omitted / unknown / reordered header tags (also after the charts), white space and double-byte punctuation
+inside values, trailing blanks, `;` on its own line, first / last lines of the file, #NOTES fields on one line.
 """
 from __future__ import annotations
 
@@ -31,6 +44,7 @@ import logging
 import os
 import random
 import tempfile
+from pathlib import Path
 from contextlib import contextmanager
 from decimal import Decimal
 from fractions import Fraction
@@ -55,6 +69,27 @@ SM_KEYS = {
     "dance-routine": 8,
     "dance-couple": 8,
 }
+
+# further chart types of StepMania's table, used by the random files (the grid keeps the seven above)
+EXTRA_SM_KEYS = {
+    "pump-single": 5,
+    "pump-halfdouble": 6,
+    "pump-double": 10,
+    "pump-couple": 10,
+    "bm-single5": 6,
+    "bm-single7": 8,
+    "bm-double7": 16,
+    "pnm-five": 5,
+    "pnm-nine": 9,
+    "techno-single8": 8,
+    "techno-double8": 16,
+    "ez2-real": 7,
+    "kickbox-human": 4,
+    "maniax-double": 8,
+    "ds3ddx-single": 8,
+    "para-single": 5,
+}
+SM_KEYS_ALL = {**SM_KEYS, **EXTRA_SM_KEYS}
 
 TEXT_TAGS = {
     "TITLE": "title",
@@ -225,7 +260,7 @@ def den_sm(text):
                         beats.append((kind, col, b0, beat - b0))
         if open_head:
             raise SMFormatError("hold_pairing", f"chart {k}: head never closed in columns {sorted(open_head)}")
-        want_w = SM_KEYS.get(typ)
+        want_w = SM_KEYS_ALL.get(typ)
         if len(widths) != 1 or (want_w is not None and widths != {want_w}):
             problems.append(("row_width", f"chart {k} ({typ}, {want_w} keys): row widths {sorted(widths)}"))
         for kind, col, b, lb in beats:
@@ -421,7 +456,17 @@ PLAIN_COMMENTS = ("", " comment", "---------------", " made with an editor", " m
 TRICKY_COMMENTS = {"comment_colon": (" song: remix v2", " 12:30"), "comment_semicolon": (" intro; verse", " end;"), "comment_hash": (" take #2", " #1 hit")}
 HEADER_ORDER = ("TITLE", "SUBTITLE", "ARTIST", "TITLETRANSLIT", "SUBTITLETRANSLIT", "ARTISTTRANSLIT", "GENRE", "CREDIT", "BANNER", "BACKGROUND", "LYRICSPATH", "CDTITLE", "MUSIC", "OFFSET", "BPMS", "STOPS", "SAMPLESTART", "SAMPLELENGTH", "DISPLAYBPM", "SELECTABLE", "BGCHANGES", "FGCHANGES")
 OPTIONAL_TAGS = ("SUBTITLE", "TITLETRANSLIT", "SUBTITLETRANSLIT", "ARTISTTRANSLIT", "GENRE", "LYRICSPATH", "CDTITLE", "DISPLAYBPM", "BGCHANGES", "FGCHANGES", "SAMPLELENGTH")
-FAMILIES = ("plain", "no_stops_tag", "row_comment", "comment_colon", "comment_semicolon", "comment_hash")
+FAMILIES = ("plain", "no_stops_tag", "row_comment", "comment_colon", "comment_semicolon", "comment_hash", "no_offset_tag", "timing_tag_order", "space_line_in_measure")
+# pools of the enrichment step of gen_spec (the grid files do not draw from them)
+BPM_EXTRA = ("30", "59.94", "999.999", "1000", "0.5", "0120.000000", "90.", "+150", "240.000")
+OFFSET_EXTRA = ("+0.500", "-.5", ".25", "600.125", "-59.999999", "000.250", "0.", "-0.0000001", "3.000000")
+TEXT_EXTRA = ("a\tb", "nb\u00a0sp", "夜\u3000明け\u301c", "ｆｕｌｌ\u3000ｗｉｄｔｈ！", "take #2", "ﾊﾝｶｸ", "= not a pair =", "100%,200%", "C# minor")
+DESC_EXTRA = ("K. Ohta, v2", "夜 #2", "ＥＸ", "a\tb", "x=y")
+RADAR_EXTRA = ("0.1,0.2,0.3,0.4,0.5,0.6,0.7,0.8,0.9,1.0", "0", "1.000000,0.500000,0.250000,0.125000,0.062500")
+METER_EXTRA = (0, 100, 9999)
+# tags that reamber does not know but StepMania 4/5 writes into .sm files: (tag, value)
+UNKNOWN_TAGS = (("KEYSOUNDS", ""), ("ATTACKS", ""), ("VERSION", "0.83"), ("ORIGIN", ""), ("TIMESIGNATURES", "0.000=4=4"), ("LABELS", "0.000=Song Start"), ("PREVIEW", "x.ogg"), ("LASTBEATHINT", ""), ("INSTRUMENTTRACK", ""), ("JACKET", "jk.png"))
+TIMING_TAGS = ("OFFSET", "BPMS", "STOPS")
 
 
 def dec_str(fr, places=9):
@@ -436,9 +481,12 @@ def dec_str(fr, places=9):
     return format(q, "f") if d == 1 else f"{q:.{places}f}"
 
 
-def gen_measures(rng, keys, row_counts, density=None, need_all=False):
+def gen_measures(rng, keys, row_counts, density=None, need_all=False, symbols="111MLFK2244", empty=False):
     """Measures (lists of row strings) with every symbol of the alphabet; a head stays open until a `3` in its
-    column, nothing else is put into a column while its hold is open; open heads are closed in a final measure."""
+    column, nothing else is put into a column while its hold is open; open heads are closed in a final measure.
+    `symbols`: the pool the objects are drawn from (a chart of one or two kinds only); `empty`: no object at all."""
+    if empty:
+        return [["0" * keys] * R for R in row_counts]
     for _attempt in range(1000):
         open_ = [False] * keys
         measures, seen = [], set()
@@ -454,7 +502,7 @@ def gen_measures(rng, keys, row_counts, density=None, need_all=False):
                             if rng.random() < 0.6:
                                 row[c], open_[c] = "3", False
                         else:
-                            s = rng.choice("111MLFK2244")
+                            s = rng.choice(symbols)
                             row[c], open_[c] = s, s in "24"
                             seen.add(s)
                 rows.append("".join(row))
@@ -470,17 +518,19 @@ def gen_measures(rng, keys, row_counts, density=None, need_all=False):
     raise AssertionError("generator could not place every symbol")
 
 
-def gen_tempo(rng, n_extra, total_beats, mode):
-    """[(beat numeral, bpm numeral)]: beat 0 plus `n_extra` changes on the 1/48-beat grid inside the chart."""
-    units = set()
+def gen_tempo(rng, n_extra, total_beats, mode, also_units=(), pool=BPM_POOL):
+    """[(beat numeral, bpm numeral)]: beat 0 plus `n_extra` changes on the 1/48-beat grid inside the chart
+    (plus the changes at the 1/48-beat units `also_units`: on a chart's last row, beyond the end of every chart)."""
+    units = set(u for u in also_units if u > 0)
+    n_extra += len(units)
     while len(units) < n_extra:
         m = mode if mode != "mixed" else rng.choice(("measure", "beat", "sixteenth", "grid"))
         step = {"measure": 192, "beat": 48, "sixteenth": 3, "grid": 1}[m]
         units.add(step * rng.randrange(1, max(2, total_beats * 48 // step)))
-    out = [(rng.choice(("0", "0.0", "0.000")), rng.choice(BPM_POOL))]
+    out = [(rng.choice(("0", "0.0", "0.000")), rng.choice(pool))]
     prev = out[0][1]
     for u in sorted(units):
-        v = rng.choice([b for b in BPM_POOL if b != prev])
+        v = rng.choice([b for b in pool if Fraction(b) != Fraction(prev)])
         s = dec_str(Fraction(u, 48))
         if "." not in s:
             s += rng.choice(("", ".0", ".000"))
@@ -515,7 +565,7 @@ def gen_header(rng, stops_tag=True):
     return h
 
 
-def gen_chart(rng, typ=None, row_counts=None, density=None, need_all=False):
+def gen_chart(rng, typ=None, row_counts=None, density=None, need_all=False, symbols="111MLFK2244", empty=False):
     typ = typ or rng.choice(CHART_TYPES)
     if row_counts is None:
         row_counts = [rng.choice(ROW_COUNTS) for _ in range(rng.randrange(1, 6))]
@@ -525,7 +575,7 @@ def gen_chart(rng, typ=None, row_counts=None, density=None, need_all=False):
         diff=rng.choice(DIFFS),
         meter=rng.randrange(1, 36),
         radar=rng.choice(RADARS),
-        measures=gen_measures(rng, SM_KEYS[typ], row_counts, density, need_all),
+        measures=gen_measures(rng, SM_KEYS_ALL[typ], row_counts, density, need_all, symbols, empty),
     )
 
 
@@ -540,11 +590,136 @@ def gen_style(rng, family, charts):
     return st
 
 
+def enrich_style(rng, st, family):
+    """Layout choices that do not change the denotation (each drawn on its own; absent keys = the plain layout)."""
+    if rng.random() < 0.25:
+        st["row_trail"] = True  # spaces / a tab after some note rows and after some `;`
+    if rng.random() < 0.15:
+        st["bpms_spaces"] = True  # `0 = 120 , 4 = 150`
+    if rng.random() < 0.2:
+        st["semicolon_newline"] = True  # the `;` of some header tags on a line of its own
+    x = rng.random()
+    if x < 0.3:
+        st["eof"] = "none" if x < 0.12 else "blank" if x < 0.24 else "comment"  # no final newline / blank lines / a last comment
+    if rng.random() < 0.15:
+        st["bof"] = rng.choice(("\n\n", "// made with an editor\n", "\n// v1.2 (final)\n\n"))
+    if rng.random() < 0.2:
+        st["notes_inline"] = True  # `#NOTES:type:description:difficulty:meter:radar:` on one line
+    if rng.random() < 0.1:
+        st["data_on_radar_line"] = True  # the first row directly after the `:` of the radar field
+    if rng.random() < 0.15:
+        st["space_lines"] = True  # blank lines BETWEEN tags / charts made of spaces or a tab
+    if family == "space_line_in_measure":
+        st["blank"] = True
+        st["space_lines_in_measures"] = True  # the same inside the note data
+    return st
+
+
+def enrich_header(rng, header, family, n_charts):
+    """-> (header, header_tail).  Every tag but #BPMS may be omitted (#OFFSET only in its own family), unknown tags are added,
+    values get white space / double-byte punctuation / '#' inside, the order of the tags is free: text tags anywhere, also after the
+    charts; #OFFSET and #BPMS in either order, also after the charts, #STOPS after both; in the family `timing_tag_order` #STOPS comes
+    before #OFFSET or #BPMS."""
+    h = [list(x) for x in header]
+    if rng.random() < 0.06:
+        h = [x for x in h if x[0] in TIMING_TAGS]  # the smallest header
+    else:
+        h = [x for x in h if x[0] in TIMING_TAGS or x[0] in OPTIONAL_TAGS or rng.random() >= 0.12]
+    for x in h:
+        if x[0] in TEXT_TAGS and x[0] not in ("DISPLAYBPM", "BGCHANGES", "FGCHANGES") and rng.random() < 0.25:
+            x[1] = rng.choice(TEXT_EXTRA)
+        elif x[0] == "OFFSET" and rng.random() < 0.25:
+            x[1] = rng.choice(OFFSET_EXTRA)
+        elif x[0] in ("SAMPLESTART", "SAMPLELENGTH") and rng.random() < 0.2:
+            x[1] = rng.choice(("000.500", "12.", "+3.25", ".5"))
+    if family == "no_offset_tag":
+        h = [x for x in h if x[0] != "OFFSET"]
+    if rng.random() < 0.3:
+        for tag, val in rng.sample(UNKNOWN_TAGS, rng.randrange(1, 4)):
+            h.insert(rng.randrange(len(h) + 1), [tag, val])
+    tail = []
+    if rng.random() < 0.3 or family == "timing_tag_order":
+        rng.shuffle(h)
+    names = [x[0] for x in h]
+    stops = h.pop(names.index("STOPS")) if "STOPS" in names else None
+    if n_charts and rng.random() < (0.5 if family == "timing_tag_order" else 0.1):
+        # #OFFSET or #BPMS (or both) after the charts
+        for t in rng.sample(("OFFSET", "BPMS"), rng.choice((1, 1, 2))):
+            names = [x[0] for x in h]
+            if t in names:
+                tail.append(h.pop(names.index(t)))
+    if stops is not None:
+        if family == "timing_tag_order":
+            # the class with a clause of its own: #STOPS in front of #OFFSET or #BPMS (wherever those are)
+            names = [x[0] for x in h]
+            inhead = [names.index(t) for t in ("OFFSET", "BPMS") if t in names]
+            if inhead:
+                h.insert(rng.randrange(0, max(inhead) + 1), stops)
+            else:
+                h.insert(rng.randrange(len(h) + 1), stops)
+        elif tail:
+            tail.append(stops)
+        else:
+            names = [x[0] for x in h]
+            last = max([names.index(t) for t in ("OFFSET", "BPMS") if t in names])
+            h.insert(rng.randrange(last + 1, len(h) + 1), stops)
+    if n_charts and rng.random() < 0.15:
+        movable = [x for x in h if x[0] not in TIMING_TAGS]
+        for x in rng.sample(movable, min(len(movable), rng.randrange(1, 4))):
+            h.remove(x)
+            tail.append(x)
+    return h, tail
+
+
 def gen_spec(rng, family="plain", types=None):
-    charts = [gen_chart(rng, typ=rng.choice(types) if types else None) for _ in range(rng.choice((1, 1, 2, 3)))]
-    total = 4 * max(len(c["measures"]) for c in charts)
+    rich = family not in ("row_comment",) + tuple(TRICKY_COMMENTS)  # the comment families stay as they were
+    n_charts = rng.choice((1, 1, 2, 3))
+    if rich:
+        x = rng.random()
+        n_charts = 0 if x < 0.03 else rng.choice((4, 5)) if x < 0.08 else n_charts
+    charts = []
+    for _ in range(n_charts):
+        typ = rng.choice(types) if types else None
+        kw = {}
+        if rich:
+            if typ is None and rng.random() < 0.25:
+                typ = rng.choice(sorted(EXTRA_SM_KEYS))
+            x = rng.random()
+            if x < 0.08:
+                kw["empty"] = True  # a chart without any object (also in the middle of a file)
+            elif x < 0.25:
+                kw["symbols"] = rng.choice(("1", "M", "L", "F", "K", "2", "4", "24", "1M", "LK", "F2"))  # one or two kinds only
+        ch = gen_chart(rng, typ=typ, **kw)
+        if rich:
+            if rng.random() < 0.2:
+                ch["desc"] = rng.choice(DESC_EXTRA)
+            if rng.random() < 0.15:
+                ch["radar"] = rng.choice(RADAR_EXTRA)
+            if rng.random() < 0.1:
+                ch["meter"] = rng.choice(METER_EXTRA)
+        charts.append(ch)
+    if rich and len(charts) >= 2 and rng.random() < 0.1:
+        charts[-1] = dict(charts[0])  # the same chart twice (type, difficulty and content)
+    total = 4 * max([len(c["measures"]) for c in charts] or [2])
     n_extra = rng.choice((0, 1, 1, 2, 2, 3, 4))
-    spec = dict(header=gen_header(rng, stops_tag=family != "no_stops_tag"), bpms=gen_tempo(rng, n_extra, total, "mixed"), charts=charts, style=gen_style(rng, family, charts))
+    also, pool = [], BPM_POOL
+    if rich:
+        if charts and rng.random() < 0.15:
+            c = rng.choice(charts)
+            also.append(48 * 4 * len(c["measures"]) - 192 // len(c["measures"][-1]))  # on the last row of a chart
+        if rng.random() < 0.15:
+            also.append(48 * total + rng.choice((0, 1, 48, 192, 500)))  # at / beyond the end of every chart
+        if rng.random() < 0.3:
+            pool = BPM_POOL + BPM_EXTRA
+    header, tail = gen_header(rng, stops_tag=family != "no_stops_tag"), []
+    if rich:
+        header, tail = enrich_header(rng, header, family, len(charts))
+    style = gen_style(rng, family, charts)
+    if rich:
+        style = enrich_style(rng, style, family)
+    spec = dict(header=header, bpms=gen_tempo(rng, n_extra, total, "mixed", also, pool), charts=charts, style=style)
+    if tail:
+        spec["header_tail"] = tail
     if len(spec["bpms"]) > 2 and rng.random() < 0.25:
         order = list(range(len(spec["bpms"])))
         tail = order[1:]
@@ -557,6 +732,7 @@ def render(spec):
     """The .sm text of a spec (deterministic: comment / blank-line placement is drawn from style.seed)."""
     st = spec["style"]
     rs = random.Random(st["seed"])
+    rx = random.Random(st["seed"] ^ 0x5BD1E995)  # the newer layout choices draw from a stream of their own
     fam = st["comments"]
     row_comments = {tuple(x) for x in st.get("row_comments", [])}
     out = []
@@ -565,41 +741,72 @@ def render(spec):
         pool = TRICKY_COMMENTS[fam] if fam in TRICKY_COMMENTS and rs.random() < 0.7 else PLAIN_COMMENTS
         return "//" + rs.choice(pool)
 
-    def noise(p):
+    def noise(p, in_data=False):
         if st["blank"] and rs.random() < p:
-            out.append("")
+            spaces = st.get("space_lines_in_measures") if in_data else st.get("space_lines")
+            out.append(rx.choice((" ", "  ", "\t", "    ")) if spaces else "")
         if fam != "none" and rs.random() < p:
             out.append(comment())
 
-    for tag, val in spec["header"]:
-        noise(0.15)
+    def trail():
+        return rx.choice(("", "", " ", "  ", "\t")) if st.get("row_trail") else ""
+
+    def tag_line(tag, val):
         if tag == "BPMS":
             pairs = list(spec["bpms"])
             if spec.get("bpms_file_order"):
                 # the #BPMS value is a set of beat=bpm pairs: their order in the text carries no meaning
                 pairs = [pairs[i] for i in spec["bpms_file_order"] if i < len(pairs)]
-            val = (",\n" if st["bpm_newlines"] else ",").join(f"{b}={v}" for b, v in pairs)
-        out.append(f"#{tag}:{val};")
+            eq, sep = (" = ", " , ") if st.get("bpms_spaces") else ("=", ",")
+            val = (sep.rstrip(" ") + "\n" if st["bpm_newlines"] else sep).join(f"{b}{eq}{v}" for b, v in pairs)
+        end = "\n;" if st.get("semicolon_newline") and rx.random() < 0.5 else ";"
+        out.append(f"#{tag}:{val}{end}{trail()}")
+
+    if st.get("bof"):
+        out.append(st["bof"].rstrip("\n"))
+    for tag, val in spec["header"]:
+        noise(0.15)
+        tag_line(tag, val)
     for ci, ch in enumerate(spec["charts"]):
         noise(0.3)
         if fam != "none":
             out.append(f"//---------------{ch['type']} - {ch['desc']}----------------")
-        out.append("#NOTES:")
-        for v in (ch["type"], ch["desc"], ch["diff"], ch["meter"], ch["radar"]):
-            out.append(f"     {v}:")
+        fields = (ch["type"], ch["desc"], ch["diff"], ch["meter"], ch["radar"])
+        if st.get("notes_inline"):
+            out.append("#NOTES:" + "".join(f"{v}:" for v in fields))
+        else:
+            out.append("#NOTES:")
+            for v in fields:
+                out.append(f"     {v}:")
+        glue = bool(st.get("data_on_radar_line"))
         for mi, rows in enumerate(ch["measures"]):
             mc = fam != "none" and st["measure_comments"]
             if mi > 0:
                 out.append(f",  // measure {mi + 1}" if mc else ",")
-            elif mc:
+            elif mc and not glue:
                 out.append("  // measure 1")
             for ri, row in enumerate(rows):
-                noise(0.04)
-                out.append(row + "  // here" if (ci, mi, ri) in row_comments else row)
-        out.append(";")
+                line = (row + "  // here" if (ci, mi, ri) in row_comments else row) + trail()
+                if glue and mi == 0 and ri == 0:
+                    out[-1] += line  # `...radar:1000`
+                    continue
+                noise(0.04, in_data=True)
+                out.append(line)
+        out.append(";" + trail())
         if st["blank"]:
             out.append("")
-    return "\n".join(out) + "\n"
+    for tag, val in spec.get("header_tail", []):
+        noise(0.15)
+        tag_line(tag, val)
+    eof = st.get("eof")
+    text = "\n".join(out)
+    if eof == "none":
+        return text.rstrip("\n")
+    if eof == "blank":
+        return text + "\n\n\n \n"
+    if eof == "comment":
+        return text + "\n// end of file"
+    return text + "\n"
 
 
 # ============================================================================= one case
@@ -610,6 +817,10 @@ FAMILY_CLAUSE = {
     "comment_colon": "comment_containing_colon",
     "comment_semicolon": "comment_containing_semicolon",
     "comment_hash": "comment_containing_hash",
+    # three further classes of file with a clause of their own (one root cause each)
+    "no_offset_tag": "reads_file_without_offset_tag",
+    "timing_tag_order": "stops_tag_before_offset_or_bpms",
+    "space_line_in_measure": "blank_line_of_spaces_inside_measure",
 }
 
 
@@ -639,13 +850,36 @@ def run_read_case(case):
             fails = compare_read(ms, d)
         except Exception as ex:  # e.g. NaN columns: the result cannot even be inspected
             fails = [("result_is_well_formed", f"inspecting the returned mapset raised {type(ex).__name__}: {ex}")]
+        later = []
+        if case.get("then_spec") or case.get("then_text"):
+            # another file read afterwards: what was returned for this one must not change
+            try:
+                SMMapSet.read(case.get("then_text") or render(case["then_spec"]))
+                later.append("another file was read")
+            except Exception:  # noqa  (that file is another case's business)
+                pass
         if case.get("entry_points"):
+            later.append("the same text was read again through the other entry points")
+            try:
+                diff = same_read(ms, SMMapSet().read(text), tol=0.0)
+            except Exception as ex:
+                diff = f"SMMapSet().read raised {type(ex).__name__}: {ex}"
+            if diff:
+                fails.append(("read_through_instance_equals_read", diff))
             try:
                 diff = same_read(ms, SMMapSet.read(text.split("\n")), tol=0.0)
             except Exception as ex:
                 diff = f"read(list of lines) raised {type(ex).__name__}: {ex}"
             if diff:
                 fails.append(("read_lines_equals_read", diff))
+            else:
+                # the list as `readlines()` gives it (every line keeps its line end): the extra empty lines are blank lines
+                try:
+                    diff = same_read(ms, SMMapSet.read(text.splitlines(keepends=True)), tol=0.0)
+                except Exception as ex:
+                    diff = f"read(readlines()-style list) raised {type(ex).__name__}: {ex}"
+                if diff:
+                    fails.append(("read_lines_keepends_equals_read", diff))
             fd, path = tempfile.mkstemp(suffix=".sm")
             try:
                 with os.fdopen(fd, "w", encoding="utf8", newline="") as f:
@@ -658,6 +892,18 @@ def run_read_case(case):
                 os.unlink(path)
             if diff:
                 fails.append(("read_file_equals_read", diff))
+            else:
+                try:
+                    fd, path = tempfile.mkstemp(suffix=".sm")
+                    with os.fdopen(fd, "w", encoding="utf8", newline="") as f:
+                        f.write(text)
+                    diff = same_read(ms, SMMapSet.read_file(Path(path)), tol=0.0)
+                except Exception as ex:
+                    diff = f"read_file(Path) raised {type(ex).__name__}: {ex}"
+                finally:
+                    os.unlink(path)
+                if diff:
+                    fails.append(("read_file_path_object_equals_read", diff))
             # the same text saved with Windows line ends denotes the same charts
             fd, path = tempfile.mkstemp(suffix=".sm")
             try:
@@ -671,6 +917,13 @@ def run_read_case(case):
                 os.unlink(path)
             if diff:
                 fails.append(("read_file_crlf_equals_read", diff))
+        if later and not fails:
+            try:
+                again = compare_read(ms, d)
+            except Exception as ex:
+                again = [("result_is_well_formed", f"{type(ex).__name__}: {ex}")]
+            if again:
+                fails.append(("earlier_read_unchanged_by_later_read", f"after {' and '.join(later)} the first result fails {again[0][0]}: {again[0][1]}"))
     return _by_family(family, fails)
 
 
@@ -683,6 +936,8 @@ def _record(rep, case, fails):
     if fails:
         full = dict(case)
         full["text"] = render(case["spec"])
+        if case.get("then_spec"):
+            full["then_text"] = render(case["then_spec"])
         for what, det in fails:
             rep.fail(what, full, det)
 
@@ -737,14 +992,21 @@ def sm_read_grid(rep):
     rep.extra["grid_points_done"] = done
 
 
-@bounded("C02", note="seeded random whole .sm files (1-3 charts of any supported type, 1-5 measures with rows from {4,8,12,16,24,48,192}, 0-4 tempo changes on the 1/48-beat grid, all symbols, comments / blank lines) read by the real SMMapSet.read against den_sm")
+@bounded("C02", note="seeded random whole .sm files (0-5 charts of any chart type, 1-5 measures with rows from {4,8,12,16,24,48,192}, 0-6 tempo changes on the 1/48-beat grid, all symbols, comments / blank lines, free header layout) read by the real SMMapSet.read against den_sm")
 def sm_read_random(rep):
     rng = rep.rng
-    N = rep.n(200, 3000)
+    N = rep.n(260, 4000)
     rep.bound = (
-        f"{N} seeded random files: 1-3 charts, chart types {CHART_TYPES}, 1-5 measures of {list(ROW_COUNTS)} rows, 0-4 tempo changes on the 1/48-beat grid "
-        "(measure lines, beats, sixteenths, any grid point; non-terminating numerals written with 9 decimals), symbols 0 1 2 3 4 M L F K, "
-        "families: 80% plain (own-line // comments, `, // measure n`, blank lines), 8% without any #STOPS tag, 4% a // comment after a note row, 8% comment text containing ':' ';' or '#'"
+        f"{N} seeded random files: 1-3 charts (3%: none, 5%: 4-5; 10% of the multi-chart files repeat a chart), chart types {CHART_TYPES} (25% of the charts: {sorted(EXTRA_SM_KEYS)}, 3-16 columns), 1-5 measures of {list(ROW_COUNTS)} rows, "
+        "8% of the charts without any object and 17% with one or two kinds of object only, 0-4 tempo changes on the 1/48-beat grid "
+        "(measure lines, beats, sixteenths, any grid point; non-terminating numerals written with 9 decimals; 15% each: one more change on the last row of a chart / at or beyond the end of every chart), symbols 0 1 2 3 4 M L F K, "
+        "numerals with leading zeros, '+', no integer part, a bare final '.', bpm 0.5 .. 1000, offsets to 1e-7 s and 600 s, meters 0 / 100 / 9999, radars of 1 / 5 / 10 values; "
+        "header: every tag but #BPMS omitted with 12% each (6%: only the timing tags), 30% with 1-3 tags reamber does not know, 30% in shuffled order (#STOPS after #OFFSET and #BPMS), 15% with 1-3 text tags and 10% with #OFFSET / #BPMS after the charts, "
+        "values with tab / U+00A0 / U+3000 / wave dash / full-width / half-width kana / '#' / '=' / ',' inside; layout (independent draws): trailing blanks after rows and ';' 25%, blanks around '=' and ',' of #BPMS 15%, "
+        "';' on its own line 20%, no final newline / blank lines / a comment at the end 30%, blank lines / a comment before the first tag 15%, #NOTES fields on one line 20%, first row on the radar line 10%, blank lines made of spaces 15%; "
+        "families: 71% plain (own-line // comments, `, // measure n`, blank lines), 8% without any #STOPS tag, 4% a // comment after a note row, 8% comment text containing ':' ';' or '#', "
+        "3% without #OFFSET, 3% with #STOPS in front of #OFFSET or #BPMS, 3% blank lines made of spaces inside the note data; "
+        "every 10th file also through read(list of lines), SMMapSet().read, read_file(str), read_file(Path), read_file of the CRLF file; 12% followed by the read of another file, first result compared again"
     )
     rep.rule = "a case is one file; non-trivial when it has a tempo change, a second chart or at least 4 different symbols"
     fams = {}
@@ -752,8 +1014,13 @@ def sm_read_random(rep):
         if rep.out_of_time(40, 600):
             break
         x = rng.random()
-        family = "plain" if x < 0.80 else "no_stops_tag" if x < 0.88 else "row_comment" if x < 0.92 else rng.choice(sorted(TRICKY_COMMENTS))
+        family = (
+            "plain" if x < 0.71 else "no_stops_tag" if x < 0.79 else "row_comment" if x < 0.83 else rng.choice(sorted(TRICKY_COMMENTS)) if x < 0.91
+            else "no_offset_tag" if x < 0.94 else "timing_tag_order" if x < 0.97 else "space_line_in_measure"
+        )
         case = dict(family=family, spec=gen_spec(rng, family), entry_points=i % 10 == 0)
+        if rng.random() < 0.12:
+            case["then_spec"] = gen_spec(rng, "plain")
         fams[family] = fams.get(family, 0) + 1
         rep.case(case, nontrivial=_nontrivial(case["spec"]))
         _record(rep, case, run_read_case(case))
